@@ -35,16 +35,19 @@ from vlib.topo import SurfRef, key
 from vlib.build import surface_from, polyline_from, pointcloud_from
 
 PROPERTY = "C14"
-RULE = ("One sub-check per generator family of mouette.procedural (20 public functions). The integer / boolean parameters "
-        "of a generator (resolutions 2..9 resp. 3..9 for periodic directions incl. every unequal pair and the minimum, N, "
-        "n_cover, n_refine, n_pts, every combination of the boolean switches, axis class of a cylinder, input form of the "
-        "transformations) are drawn with sampled_from over the full product lattice (the thorough budget is >= 12x the lattice "
-        "size per family), the real parameters (radii, centres, corner / end points, defects, length factors) are sampled "
-        "(mix of round values, interval end points and arbitrary floats). dual_mesh is run on closed oriented manifold "
-        "polygon surfaces built by the harness (platonic solids, prisms, tori, connected sums, unions; split / merge / flip "
-        "modifications; relabelled). non-trivial = two resolutions differ, or a boolean switch / n_cover / mode is not at "
-        "its default, or (for generators without such parameters) a centre / radius / corner differs from the default; "
-        "distinct = distinct realised cases.")
+RULE = ("One sub-check per generator family of mouette.procedural (all 20 public functions). A case is a point of the family's "
+        "integer / boolean lattice (resolutions 2..9, resp. 3..9 in periodic directions, incl. every unequal pair and the "
+        "minimum; N; n_cover; n_refine 0..3; n_pts 1..40; every combination of the boolean switches; axis class of a cylinder; "
+        "input form of the transformations; explicit / defaulted optional arguments) plus realised real parameters (radii, "
+        "centres, corner / end points, defects, length factors: a mix of round values, interval end points and arbitrary "
+        "floats). Family sub-checks sample the lattice point and draw the reals with Hypothesis; sub-check 'lattice' holds "
+        "every lattice point of every family x 3 fixed pseudo-random real draws as a finite list (about 2500 realised cases, plus the documented default and test-suite resolutions) behind "
+        "a bare sampled_from, which Hypothesis enumerates without repetition: every thorough shard runs the whole list, the "
+        "quick tier a random 1/8 per shard. dual_mesh is run on closed oriented manifold polygon surfaces built by the "
+        "harness (platonic solids, prisms, antiprisms, bipyramids, tori, connected sums, unions; split / merge / flip / "
+        "1-3 modifications; relabelled), modes barycenter (any case spelling) and circumcenter. non-trivial = two "
+        "resolutions differ, or a boolean switch / n_cover / mode / optional argument is not at its default, or (for "
+        "generators without such parameters) a centre / radius differs from the default; distinct = distinct realised cases.")
 ASSUMPTIONS = [
     "admissible integer parameters: periodic resolutions (cylinder N, torus segments, sphere_uv n_long, ring N) >= 3, "
     "sphere_uv n_lat >= 2, unit_grid / unit_triangle resolutions >= 2, sphere_fibonacci n_pts >= 4 when a surface is built, "
@@ -478,9 +481,9 @@ def fn_platonic(case, ctx):
     V, F, ref = r
     sc = scale_of(c, rad)
     d = np.linalg.norm(V - c, axis=1)
-    ctx.check(float(d.max() - d.min()) <= TOL * sc, pre + ":on-sphere", f"vertices are not equidistant from the centre {c.tolist()}: distances in [{d.min()!r}, {d.max()!r}]")
+    ctx.check(float(d.max() - d.min()) <= TOL * sc, pre + ":on-sphere", f"vertices are not equidistant from the centre {c.tolist()}: distances in [{float(d.min())!r}, {float(d.max())!r}]")
     L = edge_lengths(V, ref)
-    ctx.check(float(L.max() - L.min()) <= TOL * sc, pre + ":regular", f"edge lengths differ: [{L.min()!r}, {L.max()!r}]")
+    ctx.check(float(L.max() - L.min()) <= TOL * sc, pre + ":regular", f"edge lengths differ: [{float(L.min())!r}, {float(L.max())!r}]")
     if gen == "icosahedron":
         # the radius parameter is a scale factor: the circumscribed radius is proportional to it
         ok, m1 = ctx.call(pre, M.procedural.icosahedron)
@@ -529,7 +532,7 @@ def check_tube_geometry(ctx, pre, V, idx, A, B, rad, N, sc, what=""):
     t = W @ a
     radial = np.linalg.norm(W - np.outer(t, a), axis=1)
     ok = ctx.check(float(np.max(np.abs(radial - rad))) <= TOL * sc, pre + ":radius",
-                   f"{what}distance to the axis in [{radial.min()!r}, {radial.max()!r}], requested radius {rad!r}")
+                   f"{what}distance to the axis in [{float(radial.min())!r}, {float(radial.max())!r}], requested radius {rad!r}")
     at0 = [i for i, x in zip(idx, t) if abs(x) <= TOL * sc]
     at1 = [i for i, x in zip(idx, t) if abs(x - h) <= TOL * sc]
     ok = ctx.check(len(at0) == N and len(at1) == N and len(at0) + len(at1) == len(idx), pre + ":end-planes",
@@ -541,7 +544,7 @@ def check_regular_polygon(ctx, pre, V, loop, rad, sc, what):
     n = len(loop)
     chord = np.array([np.linalg.norm(V[loop[i]] - V[loop[(i + 1) % n]]) for i in range(n)])
     return ctx.check(float(np.max(np.abs(chord - 2 * rad * math.sin(math.pi / n)))) <= TOL * sc, pre + ":spacing",
-                     f"{what}: consecutive rim vertices are not 2pi/{n} apart (chords in [{chord.min()!r}, {chord.max()!r}], expected {2 * rad * math.sin(math.pi / n)!r})")
+                     f"{what}: consecutive rim vertices are not 2pi/{n} apart (chords in [{float(chord.min())!r}, {float(chord.max())!r}], expected {2 * rad * math.sin(math.pi / n)!r})")
 
 
 def fn_cylinder(case, ctx):
@@ -603,7 +606,7 @@ def fn_torus(case, ctx):
     sc = scale_of(R + r0)
     d = np.sqrt((np.hypot(V[:, 0], V[:, 1]) - R) ** 2 + V[:, 2] ** 2)
     ctx.check(float(np.max(np.abs(d - r0))) <= TOL * sc, pre + ":on-torus",
-              f"distance to the core circle (radius {R}, plane z=0) in [{d.min()!r}, {d.max()!r}], requested minor radius {r0!r}")
+              f"distance to the core circle (radius {R}, plane z=0) in [{float(d.min())!r}, {float(d.max())!r}], requested minor radius {r0!r}")
     # the vertices are a x b distinct points: a meridian planes, b positions around the tube
     ang_u = np.round(np.mod(np.arctan2(V[:, 1], V[:, 0]), 2 * math.pi) / (2 * math.pi) * a, 6) % a
     ang_v = np.round(np.mod(np.arctan2(V[:, 2], np.hypot(V[:, 0], V[:, 1]) - R), 2 * math.pi) / (2 * math.pi) * b, 6) % b
@@ -634,7 +637,7 @@ def fn_sphere_uv(case, ctx):
     V, F, ref = r
     sc = scale_of(c, rad)
     d = np.linalg.norm(V - c, axis=1)
-    ctx.check(float(np.max(np.abs(d - rad))) <= TOL * sc, pre + ":on-sphere", f"distance to the centre in [{d.min()!r}, {d.max()!r}], requested radius {rad!r}")
+    ctx.check(float(np.max(np.abs(d - rad))) <= TOL * sc, pre + ":on-sphere", f"distance to the centre in [{float(d.min())!r}, {float(d.max())!r}], requested radius {rad!r}")
     used = sorted(set(v for f in F for v in f))
     W = (V[used] - c) / rad
     poles = [i for i, w in zip(used, W) if math.hypot(w[0], w[1]) <= 1e-7]
@@ -665,10 +668,10 @@ def fn_icosphere(case, ctx):
         return
     V, F, ref = r
     d = np.linalg.norm(V - c, axis=1)
-    ctx.check(float(np.max(np.abs(d - rad))) <= TOL * scale_of(c, rad), pre + ":on-sphere", f"distance to the centre in [{d.min()!r}, {d.max()!r}], requested radius {rad!r}")
+    ctx.check(float(np.max(np.abs(d - rad))) <= TOL * scale_of(c, rad), pre + ":on-sphere", f"distance to the centre in [{float(d.min())!r}, {float(d.max())!r}], requested radius {rad!r}")
 
 
-FIB_LATTICE = [[n, s] for n in range(1, 41) for s in BOOL if n >= 4 or not s]
+FIB_LATTICE = [[n, s] for n in list(range(1, 41)) + [100, 300] for s in BOOL if n >= 4 or not s]
 
 
 def build_fibonacci(p, src):
@@ -678,7 +681,7 @@ def build_fibonacci(p, src):
 def fn_fibonacci(case, ctx):
     import mouette as M
     n, surf, rad = int(case["n_pts"]), bool(case["build_surface"]), float(case["radius"])
-    ctx.label(f"build_surface={surf}", "n<=8" if n <= 8 else "n>8")
+    ctx.label(f"build_surface={surf}", "n<=8" if n <= 8 else "n>40" if n > 40 else "n>8")
     ctx.nontrivial(not surf or rad != 1.0)
     pre = "sphere_fibonacci"
     ok, m = ctx.call(pre, M.procedural.sphere_fibonacci, n, radius=rad, build_surface=surf)
@@ -698,7 +701,7 @@ def fn_fibonacci(case, ctx):
             return
         ctx.check(len(V) == n, pre + ":vertex-count", f"|V| = {len(V)}, requested n_pts = {n}")
     d = np.linalg.norm(V, axis=1)
-    ctx.check(float(np.max(np.abs(d - rad))) <= TOL * scale_of(rad), pre + ":on-sphere", f"distance to the origin in [{d.min()!r}, {d.max()!r}], requested radius {rad!r}")
+    ctx.check(float(np.max(np.abs(d - rad))) <= TOL * scale_of(rad), pre + ":on-sphere", f"distance to the origin in [{float(d.min())!r}, {float(d.max())!r}], requested radius {rad!r}")
     if n >= 2:
         D = np.linalg.norm(V[:, None, :] - V[None, :, :], axis=2) + np.eye(n) * 1e9
         ctx.check(float(D.min()) > 1e-6 * rad, pre + ":distinct", f"two sample points coincide (min distance {float(D.min())!r})")
@@ -1180,16 +1183,16 @@ FAMILIES.update({
     "tetrahedron": (product(BOOL, BOOL), build_tet, fn_tetrahedron),
     "hexahedra": (HEXA_LATTICE, build_hexa, fn_hexahedron),
     "platonic": (PLATONIC_LATTICE, build_platonic, fn_platonic),
-    "cylinder": (product(range(3, 13), BOOL, AXES), build_cylinder, fn_cylinder),
-    "torus": (product(range(3, 10), range(3, 10), BOOL), build_torus, fn_torus),
-    "sphere_uv": (product(range(2, 10), range(3, 10)), build_sphere_uv, fn_sphere_uv),
+    "cylinder": (product(range(3, 13), BOOL, AXES) + product((20, 50), BOOL, ("z", "random")), build_cylinder, fn_cylinder),
+    "torus": (product(range(3, 10), range(3, 10), BOOL) + product((50, 30, 10), (30, 20, 10), BOOL), build_torus, fn_torus),
+    "sphere_uv": (product(range(2, 10), range(3, 10)) + [[30, 50], [20, 30], [30, 20]], build_sphere_uv, fn_sphere_uv),
     "icosphere": (product(range(0, 4)), build_icosphere, fn_icosphere),
     "sphere_fibonacci": (FIB_LATTICE, build_fibonacci, fn_fibonacci),
-    "ring": (product(range(3, 10), BOOL, (1, 2, 3)), build_ring, fn_ring),
-    "flat_ring": (product(range(1, 10), (1, 2, 3)), build_flat_ring, fn_flat_ring),
+    "ring": (product(range(3, 11), BOOL, (1, 2, 3)), build_ring, fn_ring),
+    "flat_ring": (product(range(1, 11), (1, 2, 3)), build_flat_ring, fn_flat_ring),
     "triangle_quad": (FLAT_LATTICE, build_flat, fn_flat),
-    "unit_grid": (product(range(2, 10), range(2, 10), BOOL, BOOL), build_grid, fn_unit_grid),
-    "unit_triangle": (product(range(2, 10), range(2, 10), BOOL), build_unit_triangle, fn_unit_triangle),
+    "unit_grid": (product(range(2, 10), range(2, 10), BOOL, BOOL) + product((10, 13), (10, 13), BOOL, BOOL), build_grid, fn_unit_grid),
+    "unit_triangle": (product(range(2, 10), range(2, 10), BOOL) + [[10, 10, False], [10, 10, True], [13, 13, True]], build_unit_triangle, fn_unit_triangle),
     "polylines": (POLYLINE_LATTICE, build_polyline, fn_polylines),
     "transformations": (TRANSFORM_LATTICE, build_transform, fn_transformations),
 })
@@ -1225,8 +1228,8 @@ _Q = {"tetrahedron": 60, "hexahedra": 160, "platonic": 60, "cylinder": 240, "tor
       "sphere_fibonacci": 160, "ring": 200, "flat_ring": 120, "triangle_quad": 60, "unit_grid": 320, "unit_triangle": 200,
       "polylines": 160, "transformations": 120}
 
-SUBCHECKS = [SubCheck(name, family_strategy(name), FAMILIES[name][2], quick=_Q[name], thorough=_Q[name]) for name in _Q] + [
-    SubCheck("dual_mesh", dual_case(), fn_dual, quick=300, thorough=500),
+SUBCHECKS = [SubCheck(name, family_strategy(name), FAMILIES[name][2], quick=4 * _Q[name], thorough=6 * _Q[name]) for name in _Q] + [
+    SubCheck("dual_mesh", dual_case(), fn_dual, quick=1000, thorough=2000),
     # bare sampled_from over a finite list: Hypothesis never repeats a choice sequence, so a budget >= len(LATTICE_CASES)
     # enumerates the whole lattice in every thorough shard (it stops by itself once the list is exhausted)
     SubCheck("lattice", st.sampled_from(LATTICE_CASES), fn_lattice, quick=len(LATTICE_CASES), thorough=len(LATTICE_CASES) + 50),
